@@ -172,7 +172,7 @@ def main(argv):
     # ---------------- sessions: exhaustive over the alphabet (implementation only), model on a sample
     depth = 2 if tier == "quick" else 3
     sess = list(sessions_exhaustive(depth))
-    n_random = 400 if tier == "quick" else 6000
+    n_random = 400 if tier == "quick" else 120000
     for _ in range(n_random):
         k = 3 + rng.below(8)
         sess.append("\n".join(rng.choice(ALPHABET) for _ in range(k)) + "\n" + TAIL)
@@ -184,7 +184,7 @@ def main(argv):
         if len(res.violations) > 10:
             break
     # model vs implementation on the per-statement snapshots
-    n_model = 700 if tier == "quick" else 5000
+    n_model = 700 if tier == "quick" else 40000
     idx = list(range(len(sess)))
     if len(idx) > n_model:
         idx = sorted(rng.shuffle(idx)[:n_model])
@@ -213,7 +213,7 @@ def main(argv):
                               "model_compared": len(idx), "model_agree": agree, "mismatches": len(mism)}
 
     # ---------------- EVAL: general generated programs, model vs implementation
-    n_eval = 300 if tier == "quick" else 4000
+    n_eval = 300 if tier == "quick" else 40000
     g = Gen(rng)
     progs = ["\n".join(g.program(2 + rng.below(8))) for _ in range(n_eval)]
     try:
